@@ -7,6 +7,68 @@ SANITY_TARGET = "codemodder.codemods.base_visitor.match_line"
 TARGETS = ["codemodder.codemods.base_visitor.match_line"]
 
 
+def run_symlinks(tier, seed):
+    """BOUNDED stand-in: nothing outside the target is written through a symlink.  The ghost file system of the deductive part maps
+    PATHS to contents (two spellings of one physical file are two keys), so aliasing through symlinks is checked natively: a project with
+    symlinked manifests / sources pointing outside is built, the REAL discovery (package stores, file list) and the REAL writers run, and
+    the files outside must be byte-identical afterwards."""
+    import json
+    import os
+    import shutil
+    import tempfile
+    from pathlib import Path
+    from codemodder.code_directory import files_for_directory, match_files
+    from codemodder.dependency import Security
+    from codemodder.dependency_management import DependencyManager
+    from codemodder.project_analysis.python_repo_manager import PythonRepoManager
+    manifests = {"requirements.txt": "requests==2.0\n", "pyproject.toml": '[project]\nname = "p"\nversion = "1"\ndependencies = ["requests"]\n',
+                 "setup.cfg": "[options]\ninstall_requires =\n    requests\n", "setup.py": "from setuptools import setup\nsetup(name='p',\n  install_requires=['requests'],\n)\n"}
+    evals, bad = 0, None
+    root = Path(tempfile.mkdtemp(prefix="pyvc_c05_"))
+    try:
+        for name, text in manifests.items():
+            for where in ("", "sub/pkg"):
+                for kind in ("file-symlink", "real"):
+                    case = root / f"case{evals}"
+                    proj, outside = case / "proj", case / "outside"
+                    (proj / where).mkdir(parents=True)
+                    outside.mkdir(parents=True)
+                    (outside / name).write_text(text)
+                    (outside / "mod.py").write_text("import os\n")
+                    if kind == "file-symlink":
+                        os.symlink(outside / name, proj / where / name)
+                    else:
+                        (proj / where / name).write_text(text)
+                    os.symlink(outside / "mod.py", proj / "linked_mod.py")
+                    (proj / "real_mod.py").write_text("import os\n")
+                    evals += 1
+                    w = None
+                    listed = match_files(proj, files_for_directory(proj), None, ["*.py", "**/*.py"])
+                    for p in listed:
+                        if p.is_symlink() or proj.resolve() not in p.resolve().parents:
+                            w = {"clause": "files to analyse lie physically inside the target", "path": str(p)}
+                    try:
+                        stores = PythonRepoManager(proj).package_stores
+                        for st in stores:
+                            DependencyManager(st, proj).write([Security], dry_run=False)
+                    except Exception as e:      # noqa
+                        w = w or {"clause": "discovery and writers do not raise", "observed": f"{type(e).__name__}: {e}"}
+                    if (outside / name).read_text() != text or (outside / "mod.py").read_text() != "import os\n":
+                        w = {"clause": "nothing outside the target directory is written, directly or through symlinks",
+                             "manifest": f"{where}/{name} -> outside/{name}" if kind == "file-symlink" else name,
+                             "outside file after the run": (outside / name).read_text()}
+                    if w is not None and bad is None:
+                        bad = dict(w, case=f"{kind} {where or '.'}/{name}")
+    finally:
+        shutil.rmtree(root, ignore_errors=True)
+    return {"kind": "bounded", "id": "bounded:nothing outside the target is written through symlinks", "status": "refuted" if bad else "discharged",
+            "bound": "4 manifest formats x {target root, nested dir} x {regular file, symlink to a file outside}, plus a symlinked and a regular .py file",
+            "evaluations": evals, "witness": bad, "func": "codemodder.project_analysis.file_parsers.base_parser.BaseParser.find_file_locations",
+            "reason": "" if not bad else f"clause '{bad.get('clause')}' fails",
+            "replay": {"reproduced": True, "detail": json.dumps(bad, default=str)} if bad else None,
+            "clause": "files discovered for analysis / dependency updates are regular files inside the target; files outside are byte-identical after the writers ran"}
+
+
 def extra_checks(tier="quick", seed=0):
     import os
     import codemodder
@@ -14,4 +76,4 @@ def extra_checks(tier="quick", seed=0):
     from pyvc.api import REG
     src = os.path.dirname(os.path.dirname(os.path.abspath(codemodder.__file__)))
     from contracts.props.C17 import run_parse_args
-    return framescan.obligations(src, REG.contracts) + [run_parse_args(tier, seed, ("--path-include", "--path-exclude"))]
+    return framescan.obligations(src, REG.contracts) + [run_parse_args(tier, seed, ("--path-include", "--path-exclude")), run_symlinks(tier, seed)]
